@@ -413,7 +413,14 @@ static std::vector<PrefQ> prefix_patterns(const Case &c, XorShift &x, size_t wan
       case 1: add(m.substr(0, 1 + x.below((uint32_t)m.size())), "member_prefix"); break;
       case 2: add(m, "member"); break;
       case 3: { std::string q = m.substr(0, 1 + x.below((uint32_t)m.size())); q += (char)(2 + x.below(253)); add(q, "prefix_plus_byte"); break; }
-      case 4: { std::string q = m; for (size_t i = m.size(); i <= c.gi.maxlen; i++) q += m[i % m.size()]; add(q, "longer_than_all"); break; }
+      case 4: {
+        // longer than every member: by one byte, by a few, or by far (beyond any maxLength-sized scratch buffer)
+        size_t extra = (k / 9) % 3 == 0 ? 0 : (k / 9) % 3 == 1 ? 1 + x.below(8) : 20 + x.below(200);
+        std::string q = m;
+        for (size_t i = m.size(); i <= c.gi.maxlen + extra; i++) q += m[i % m.size()];
+        add(q, extra ? "much_longer_than_all" : "longer_than_all");
+        break;
+      }
       case 5: { std::string q = S[0]; if ((unsigned char)q[0] > 2) { q[0]--; add(q.substr(0, 1), "before_all"); } break; }
       case 6: { std::string q = S[n - 1]; if ((unsigned char)q[0] < 254) { q[0]++; add(q.substr(0, 1), "after_all"); } else { q += (char)254; add(q, "after_all"); } break; }
       case 7: {  // long shared prefix (>=128 when the set has one)
@@ -439,6 +446,8 @@ static void sweep_c04(Obj &o, const Case &c, XorShift &x) {
     size_t lo, hi;
     model_prefix(S, q.p, lo, hi);
     size_t cnt = hi - lo;
+    // "when no member begins with p ... without reading outside the dictionary": C04 owns memory errors of these calls
+    asan_also_prop = cnt == 0 ? "C04" : "";
     if (cnt == 0) { empty = true; cur->labels.insert(lo == 0 ? "prefix:none_before" : lo == n ? "prefix:none_after" : "prefix:none_inside"); }
     else if (b) {
       size_t b1 = lo / b, b2 = (hi - 1) / b;
@@ -498,6 +507,7 @@ static void sweep_c04(Obj &o, const Case &c, XorShift &x) {
       }
     }
   }
+  asan_also_prop.clear();
   if (multi && empty) cur->labels.insert("c04_nontrivial");
 }
 
